@@ -145,10 +145,18 @@ def r_getvar(model, rep):
     params = cx.params[1:]
     if not {"arch", "types", "recursive"} <= set(params):
         raise AnalysisError("R-GETVAR: get_variants signature changed: %s" % params)
+    S_ = ("param", cx.selfname)
+
+    def child_term(t, loops):
+        """t denotes the child drawn by the innermost loop: the loop element itself, or self.variants[<element>]"""
+        if not loops:
+            return False
+        el = ("elem", loops[-1][1], loops[-1][0])
+        return t == el or t == ("sub", ("attr", S_, "variants"), el)
     appends = [ev for ev in cx.events if ev.kind == "call" and ev.value[1][0] == "attr" and ev.value[1][2] == "append"
-               and ev.loops and ev.value[2] and ev.value[2][0][0] == "elem"]
+               and ev.loops and ev.value[2] and child_term(ev.value[2][0], ev.loops)]
     if len(appends) != 1:
-        raise AnalysisError("R-GETVAR: expected exactly one append of the loop element, found %d" % len(appends))
+        raise AnalysisError("R-GETVAR: expected exactly one append of the loop's child variant, found %d" % len(appends))
     ap = appends[0]
     elem = ap.value[2][0]
     result_local = ap.value[1][1]
@@ -220,7 +228,8 @@ def r_getvar(model, rep):
                msg="" if merged else "the recursive result is not added to the result list")
     # loop covers every child
     it = ap.loops[-1][1]
-    covers = T.contains(it, lambda x: x == ("attr", ("param", cx.selfname), "variants")) and not T.contains(it, lambda x: x[0] == "sub")
+    covers = (T.contains(it, lambda x: x == ("attr", ("param", cx.selfname), "variants")) or it == S_ or
+              (it[0] == "call" and it[1] == ("global", "sorted") and it[2] == (S_,))) and not T.contains(it, lambda x: x[0] == "sub")
     rep.ob("R-GETVAR", "get_variants:loop-covers-all-children", covers, site=cx.site(ap.lineno),
            msg="" if covers else "loop does not iterate over all of self.variants")
     # (iii) sorted by uid on every exit
